@@ -269,7 +269,22 @@ def once_case(draw):
         inc_body = inc_body[1:]
     a = {"files": dict(extra, **{"main.mac": main, "lib/once.mac": inc_body}), "blobs": {}, "mains": ["main.mac"], "charset": "bk"}
     b = {"files": dict(extra, **{"main.mac": main_once if with_once else main, "lib/once.mac": inc_body}), "blobs": {}, "mains": ["main.mac"], "charset": "bk"}
-    return a, b, {"m": m, "with_once": with_once, "respelled": len(set(spellings)) > 1}
+    linked = None
+    if with_once and draw(st.integers(0, 3)) == 0:
+        # the guarded file is also named on the command line, before or after the file that includes it: it contributes the first
+        # time it is assembled, whichever way that happens
+        linked = draw(st.sampled_from(["first", "last"]))
+        if linked == "first":
+            a["mains"] = ["lib/once.mac", "main.mac"]
+            none = [s_ for s_ in main if not (s_["k"] == "include")]
+            b = {"files": dict(extra, **{"main.mac": none, "lib/once.mac": inc_body}), "blobs": {}, "mains": ["lib/once.mac", "main.mac"], "charset": "bk"}
+            if extra:
+                linked = None       # an include through another file would be dropped with it: keep the plain case
+                a["mains"] = ["main.mac"]
+                b = {"files": dict(extra, **{"main.mac": main_once, "lib/once.mac": inc_body}), "blobs": {}, "mains": ["main.mac"], "charset": "bk"}
+        else:
+            a["mains"] = ["main.mac", "lib/once.mac"]
+    return a, b, {"m": m, "with_once": with_once, "respelled": len(set(spellings)) > 1, "linked": linked}
 
 
 def judge(a, b, use_model=True):
@@ -346,7 +361,7 @@ def run_shard(spec, ctx):
         elif sub == "end":
             labels.append("end-in-" + meta["where"])
         elif sub == "once":
-            labels += [f"included-{meta['m']}x", "with-once" if meta["with_once"] else "without-once"] + (["once-path-respelled"] if meta.get("respelled") else [])
+            labels += [f"included-{meta['m']}x", "with-once" if meta["with_once"] else "without-once"] + (["once-path-respelled"] if meta.get("respelled") else []) + (["once-file-also-linked-" + meta["linked"]] if meta.get("linked") else [])
             nt = meta["m"] >= 2
         ctx.case(key, nt, labels, sample={"structured": progcheck.brief_texts(ta, 400), "flattened": progcheck.brief_texts(tb, 300)} if ctx.evaluations % 90 == 8 else None, evaluations=2)
         if fails:
